@@ -52,6 +52,7 @@ func genC18(t *rapid.T) C18Case {
 			o.Aliases = []string{fresh("A" + strconv.Itoa(int(k)))}
 			if rapid.Bool().Draw(t, "kalias2") {
 				o.Aliases = append(o.Aliases, fresh(string(rune('B'+int(k)))))
+				o.AliasSplit = rapid.Bool().Draw(t, "kaliassplit")
 			}
 		}
 		o.Required = rapid.IntRange(0, 2).Draw(t, "kreq") == 0
